@@ -77,6 +77,11 @@ fn actions(h: &Harness, kind: Kind, last_reply: &str, nlocks: u64, nstreams: u64
             }
             v.push(format!("lock ao {hid} {k} {h0} soft 1 -"));
         }
+        // a limit far above any population: nothing may be evicted, sync and async
+        if !is_locked_in_snapshot(last_reply, 1) {
+            v.push(format!("lock b {hid} 1 {h0} soft 18446744073709551615 -"));
+        }
+        v.push(format!("lock ta {hid} 0 {h0} soft 18446744073709551615 -"));
         v.push(format!("lock tao {hid} 1 {h0} soft 1 stash,ok"));
         v.push(format!("lock ta {hid} 1 {h0} soft 1 keep,err"));
         v.push(format!("lock a {hid} 1 {h0} soft 1 pend,ok"));
